@@ -24,6 +24,7 @@ DESIGN_REF = 'DESIGN.md section 4 (C03)'
 EXPLANATION = ('GROUP key agreement (3 writer loops + group loop), FRESH instrument per group, ORD over the writer, CTOR argument/parameter '
                'correspondence from the installed pretty_midi, FIELDS writer-read vs reader-written schema fields per event kind, LAYOUT of the '
                'reader tuples, MINOR offset/modulus/divisor agreement, TEMPO initial tempo and tick-scale formula.')
+EXPLANATION += (' ' + 'GROUP/key-fields: on either path that chooses the Instrument object of a group (new instrument / reused placeholder) the object receives both program and is_drum of the group key, through the constructor positions read from the installed pretty_midi or through attribute stores.')
 TRUSTED = ['pretty_midi writes and parses faithfully what its containers hold', 'PrettyMIDI.write sorts events']
 NOT_DECIDED = ['times within one MIDI tick', 'pretty_midi internal encoding']
 ASSUMPTIONS = []
